@@ -29,8 +29,8 @@ def run(ctx):
     total_h += n
     total_ops += o
     plans = [
-        ("setlen", ["--seed", ctx.seed, "--count", 250 if quick else 4000, "--max-ops", 40 if quick else 80, "--setlen-heavy", "--no-cycles", "--reopen-pct", 6]),
-        ("mixed", ["--seed", ctx.seed + 3, "--count", 80 if quick else 1500, "--max-ops", 40, "--setlen-heavy"]),
+        ("setlen", ["--seed", ctx.seed, "--count", 800 if quick else 4000, "--max-ops", 40 if quick else 80, "--setlen-heavy", "--no-cycles", "--reopen-pct", 6]),
+        ("mixed", ["--seed", ctx.seed + 3, "--count", 250 if quick else 1500, "--max-ops", 40, "--setlen-heavy"]),
     ]
     for tag, args in plans:
         stat, h, sample = P.campaign(ctx, args, tag, THM, PID)
